@@ -269,7 +269,7 @@ fn wait_for_baton(s: &Sched, mut st: std::sync::MutexGuard<'_, SchedState>, me: 
         // it is blocked on an OS lock held by one of the waiting threads. Model it as blocked.
         if st.progress != handed_at.0 {
             handed_at = (st.progress, Instant::now());
-        } else if to.timed_out() && handed_at.1.elapsed() > Duration::from_millis(400) {
+        } else if to.timed_out() && handed_at.1.elapsed() > Duration::from_millis(5000) {
             if let Some(h) = st.baton {
                 let everybody_else_waits = (0..st.waiting.len()).all(|t| t == h || st.waiting[t] || st.finished[t]);
                 if everybody_else_waits && !st.waiting[h] && !st.finished[h] {
@@ -525,7 +525,7 @@ pub fn run(tier: &str, seed: u64) -> i32 {
     let mut samples: Vec<Value> = vec![];
     let mut assumptions = vec![];
     let fail = |failures: &mut Vec<Failure>, clause: &str, sig: String, detail: String, extra: Value| {
-        failures.push(Failure { property: "C17".into(), clause: clause.into(), signature: format!("C17|{clause}|{sig}"), input: String::new(), cfg: None, detail, derivation: sig.clone(), extra });
+        failures.push(Failure { property: "C17".into(), clause: clause.into(), signature: format!("C17|{clause}|{sig}"), input: String::new(), cfg: None, detail, derivation: sig.clone(), extra, count: 1 });
     };
 
     // ---- 1. fresh processes: every call alone, 3 processes each
@@ -755,7 +755,7 @@ pub fn run(tier: &str, seed: u64) -> i32 {
         .unwrap_or_default();
     assumptions.push(format!("census of static / thread_local! / unsafe / Mutex / Atomic / RefCell in typstyle-core outside verif_hooks.rs: files = {:?}", census));
     assumptions.push("schedules interleave at hook granularity (conversion entry points and API phase boundaries); code between two points runs without interleaving; weak-memory effects are not modelled".into());
-    assumptions.push("a thread that is handed the baton and makes no progress for 400 ms while all others wait is modelled as blocked on an OS lock".into());
+    assumptions.push("a thread that is handed the baton and makes no progress for 5 s while all others wait is modelled as blocked on an OS lock".into());
 
     let mut cov = Coverage {
         states,
